@@ -193,8 +193,9 @@ def run_trap(ctx, drv, case):
     exact_ok = True
     if impl == ("err", "assert") and model[0] != "err" and md and case.get("wellformed"):
         # In exact arithmetic the interior weights sum to b-a (theorem modTrap_eq_plIntegral_extrap), so the model passes the
-        # code's self-assert.  On strongly graded grids the modified weights are huge and of both signs; the doubles then miss
-        # the assert's fixed 1e-12 tolerance by rounding alone.  Only that situation is classified here.
+        # code's self-assert.  On strongly graded grids the modified weights are huge and of both signs; since the fix
+        # "self-check relative to sum(abs(weights))" the doubles pass it too (deterministic cases deep_graded_m30).  This branch
+        # is the regression probe for that fix: it reports if the assert fires again by rounding alone.
         maxw = max(abs(float(w)) for w in model[1]) if model[1] else 0.0
         if maxw >= 1e3 * float(b - a):
             ctx.count("selfassert_fired_by_rounding")
